@@ -333,11 +333,12 @@ const INJECTIONS: &[&str] = &["<b>", "\n", "\u{feff}", "&am", "</scr", "x", "\r"
 
 /// Parse with injection of `inj` at the `k`-th script pause; returns (dump, consumed-prefix-len, remainder) or None when
 /// there is no k-th pause.
-fn parse_with_injection(input: &str, cuts: &[usize], opts: &HtmlOpts, k: u32, inj: &str) -> Result<Option<(String, String, bool)>, String> {
+/// Returns (tree dump, (consumed prefix, unread rest incl. not yet pushed chunks), remainder-is-not-a-suffix).
+fn parse_with_injection(input: &str, cuts: &[usize], opts: &HtmlOpts, k: u32, inj: &str) -> Result<Option<(String, (String, String), bool)>, String> {
     let chunks = split_at_chars(input, cuts);
     let total_chars: Vec<char> = input.chars().collect();
     let r = catch(|| {
-        let mut spliced: Option<String> = None;
+        let mut spliced: Option<(String, String)> = None;
         let mut bad_suffix = false;
         let mut pushed_chars = 0usize;
         let mut script_no = 0u32;
@@ -365,7 +366,7 @@ fn parse_with_injection(input: &str, cuts: &[usize], opts: &HtmlOpts, k: u32, in
                             let consumed_len = pushed_chars.saturating_sub(rest.chars().count());
                             let consumed: String = total_chars[..consumed_len].iter().collect();
                             let unpushed: String = total_chars[pushed_chars..].iter().collect();
-                            spliced = Some(format!("{consumed}\u{1}{rest}{unpushed}"));
+                            spliced = Some((consumed, format!("{rest}{unpushed}")));
                             if !rest.is_empty() {
                                 q.push_front(StrTendril::from_slice(&rest));
                             }
@@ -407,7 +408,7 @@ fn check_injection(input: &str, opts: &HtmlOpts, rng: &mut Rng, st: &mut Stats) 
                 st.violation("inject:remainder-not-suffix", &format!("input={} k={k}: unread input at script pause is not a suffix of what was fed", show(input)), rep.clone());
                 return;
             }
-            let (consumed, rest) = spliced.split_once('\u{1}').unwrap();
+            let (consumed, rest) = (spliced.0.as_str(), spliced.1.as_str());
             st.count("pauses_measured");
             if !consumed.ends_with('>') {
                 st.violation("inject:pause-not-after-end-tag", &format!("input={} k={k}: consumed prefix {} does not end with '>'", show(input), show(consumed)), rep.clone());
@@ -611,7 +612,7 @@ fn replay(args: &Args, path: &std::path::Path) -> (Meta, Stats) {
             let inj = v["inject"].as_str().unwrap_or("");
             st.case(Some(1));
             if let Ok(Some((dump, spliced, _))) = parse_with_injection(&input, &cuts, &opts, k, inj) {
-                let (consumed, rest) = spliced.split_once('\u{1}').unwrap();
+                let (consumed, rest) = spliced;
                 let whole = format!("{consumed}{inj}{rest}");
                 if let Ok(r) = tree_result(&[whole], &opts, None) {
                     if r.dump != dump {
